@@ -7,7 +7,7 @@ CONSTANTS
   Semantics = "memory"
   Insts = {1, 2}
   MaxHist = 3
-  Emit = "wit"
+  Emit = "both"
 VIEW View
-INVARIANTS TypeOK SameAnswerUniform NaturalOnUniform EmitWitness
+INVARIANTS TypeOK SameAnswerUniform NaturalOnUniform InstancePreorder EmitWitness
 CHECK_DEADLOCK FALSE
